@@ -151,6 +151,10 @@ def read_text(
             blocks = [
                 delayed(attach_path)(entry, path) for entry, path in zip(blocks, paths)
             ]
+        if not blocks and raw_blocks:
+            # The files exist but hold no bytes: no lines, as with blocksize=None
+            # (only a missing file is an error)
+            blocks = [delayed(list)(())]
 
     if not blocks:
         raise ValueError("No files found", urlpath)
